@@ -117,6 +117,16 @@ def corpus():
         "catch_all-recover": catch_all([L.inc(1), L.raiser("V", 1), L.raiser("V", 2)], ValueError, L.rec_count),
         "catch_all-nomatch": catch_all([L.inc(1), L.raiser("V", 1), L.raiser("K", 2)], ValueError, L.rec_count),
         "catch_all-dict": catch_all({"a": L.inc(1), "b": L.raiser("V", 1)}, ValueError, identity),
+        # which error is re-raised is decided by TERM order, not by completion order
+        "catch_all-first-of-three": catch_all([L.raiser("V", 1), L.inc(1), L.raiser("K", 2), L.raiser("L", 3)]),
+        "catch_all-first-slow": catch_all([L.fail_after(2, "V"), L.raiser("K", 2)]),
+        "catch_all-nomatch-two": catch_all([L.raiser("K", 1), L.raiser("V", 2), L.raiser("L", 3)], ValueError, L.rec_count),
+        "catch_all-nomatch-slow": catch_all((L.fail_after(2, "S"), L.raiser("Z", 2)), KeyError, L.rec_count),
+        "catch_all-uncovered-tuple": catch_all([L.raiser("V", 1), L.raiser("K", 2)], (L.LibError, TypeError), identity),
+        "catch_all-covered-order": catch_all([L.raiser("V", 1), L.raiser("K", 2)], Exception, identity),
+        "catch_all-dict-two": catch_all({"a": L.raiser("V", 1), "b": L.raiser("K", 2)}),
+        "catch_all-in-task-result": L.identity(catch_all([L.fail_after(1, "L"), L.raiser("T", 9)])) if hasattr(L, "identity") else
+        identity(catch_all([L.fail_after(1, "L"), L.raiser("T", 9)])),
         "map": map_(L.inc, [1, L.inc(2)]),
         "map-expr": map_(L.inc, L.mklist(3)),
         "map-fused": map_(L.inc, map_(L.neg, L.mklist(3))),
@@ -229,7 +239,7 @@ def run(ctx):
     for name, e in corpus().items():
         progs.append((name, e, G.to_sx(e), {"source": "corpus"}))
     base = rng.getrandbits(48)
-    n = ctx.n(190, 1000)
+    n = ctx.n(160, 1000)
     feats = {}
     for i in range(n):
         prng = random.Random(base + i)
@@ -252,7 +262,7 @@ def run(ctx):
     replies = ctx.model("C01", ["(eval i%d %s)" % (FUEL, sx) for _, _, sx, _ in progs])
     k_seeds = 2 if ctx.tier == "quick" else 3
     for (name, e, sx, tags), rep in zip(progs, replies):
-        seeds = [rng.getrandbits(30) for _ in range(k_seeds)]
+        seeds = (["lifo"] if ctx.tier == "quick" else ["fifo", "lifo"]) + [rng.getrandbits(30) for _ in range(k_seeds - 1)]
         check_program(ctx, G, R, name, e, sx, rep, seeds, tags)
     free_running(ctx, G, R, base)
 
